@@ -1,7 +1,7 @@
 (* C17/Run.v -- entry point of the correspondence check: a case is a program
    (list of operations); the observation is the list of per-operation results
-   (captured Request or exception class) followed by the final content of every
-   object the caller created. *)
+   (captured Request + the value returned to the caller, or the exception class)
+   followed by the final content of every object the caller created. *)
 From Coq Require Import ZArith List Bool Uint63.
 From AK Require Export Common.Sx Common.Err gen.C17_Consts C17.Codec C17.Model.
 Import ListNotations.
@@ -60,14 +60,27 @@ Definition sort_kv (l : dict) : dict := fold_right insert_kv [] l.
    generated shape); an id supplied by the caller is an ordinary header value and is compared *)
 Definition canon_kv (kv : str * hval) : str * hval := kv.
 
-Definition sx_captured (c : captured) : sx :=
+(* the value returned to the caller: decoded json (canonical text) / the raw response object, inside the
+   marks of the harness's TagAdapters (outermost first).  The '' of an empty body and the '' decoded from
+   the body '""' are the same python value: both are written as the json text of that str (only RText []
+   occurs: no escaping needed) *)
+Fixpoint sx_rval (v : rval) : sx :=
+  match v with
+  | RText s => SL [SZ 1; sx_str ([34] ++ s ++ [34])]
+  | RJson js => SL [SZ 1; sx_str js]
+  | RRaw code body => SL [SZ 2; SZ code; sx_str body]
+  | RMark k v' => SL [SZ 3; SZ k; sx_rval v']
+  end.
+
+Definition sx_captured (c : captured) (v : rval) : sx :=
   SL [sx_str (q_url c); sx_str (q_method c);
       sx_list sx_kv (sort_kv (map canon_kv (q_headers c)));
       sx_option sx_str (q_data c);
-      sx_list SZ (q_resp c)].
+      sx_list SZ (q_resp c);
+      sx_rval v].
 
 Definition sx_obsv (o : obsv) : sx :=
-  match o with OUnit => SL [] | OReq c => sx_captured c end.
+  match o with OUnit => SL [] | OReq c v => sx_captured c v end.
 
 Definition run_full (c : case) : sx :=
   match c with
@@ -107,7 +120,7 @@ Definition run (c : case) : sx :=
       let '(st, obs) := run_ops init ops in
       SL [digest (sx_list (fun r => match r with
                             | Ok OUnit => SZ 0
-                            | Ok (OReq q) => digest (sx_captured q)
+                            | Ok (OReq q v) => digest (sx_captured q v)
                             | Err e => SL [SZ (err_code e)]
                             end) obs);
           digest (sx_list (fun r => sx_option sx_cell (hget (heap_of st) r)) (cobjs st));
